@@ -1,11 +1,15 @@
 import CsVerif.Model.C09
+import CsVerif.Props.C15
 /-! Helper lemmas for C09 (no property statements here).
 
 Contents: (1) `C20.xor` on a 4-byte key and `rollDecode` as `zipWith`; (2) `Layout`, `readNonce_eq`;
 (3) the chunk-loop invariant `readLoop_spec` and `read_spec`; (4) abstraction relation `Abs`, `step_refines`,
 `run_refines`, `mk'_spec`; (5) `iter_nonce_offsets`; (6) `Counter.most_common`; (7) the candidate loop;
 (8) `find_mz_offset` on a PE header; (9) totality / framing of `read` and `find_mz_offset`;
-(10) `from_file` with the modelled MZ check = the parameterised one. -/
+(10) `from_file` with the modelled MZ check = the parameterised one;
+(11) `from_file` with the real needle scanner (`markerScan`, `realHits`, `sizeOffsets`, `realCandidates`, `nonceLoop_mem`,
+`realHits_sublist/complete/bound/large_buffer`); (12) `read_advances`; the pre-13416c7 `seekOld` characterised (`seekOld_exact`); (13) refinement of ALL histories by the
+current `seek` (`step_refines_all`, `run_refines_all`, `trace_refines_all`). -/
 namespace C09
 
 theorem xorCore_eq_zipWith (d k : Bytes) (h : d.length ≤ k.length) :
@@ -420,19 +424,6 @@ theorem pyseek_frame (f : PyFile) (off : Int) (wh : Nat) (v : Nat) (f' : PyFile)
   · exact seekRel_frame _ _ _ _ _ h
   · cases h
 
-theorem seek_frame (x : XorFile) (off : Int) (wh : Nat) (v : Nat) (y : XorFile)
-    (h : seek x off wh = .ok (v, y)) : y = x.withPos v := by
-  simp only [seek] at h
-  split at h
-  · cases h
-  · rename_i v' f' hr
-    injection h with h; obtain ⟨rfl, rfl⟩ := Prod.mk.inj h
-    have : f' = { x.fh with pos := v' } := by
-      split at hr
-      · exact pyseek_frame _ _ _ _ _ hr
-      · exact pyseek_frame _ _ _ _ _ hr
-    rw [this]; rfl
-
 theorem seekRel_error (f : PyFile) (b : Nat) (off : Int) (e : PyExc) (h : f.seekRel b off = .error e) :
     e = PyExc.osError := by
   simp only [PyFile.seekRel] at h
@@ -543,22 +534,48 @@ theorem seekSet_ok' (f : PyFile) (off : Int) (t : Nat) (h : off = (t : Int)) :
     f.seekSet off = .ok (t, { f with pos := t }) := by
   subst h; exact PyFile.seekSet_ok f t
 
-theorem seek_set_eq (x : XorFile) (off : Int) (v : Nat)
-    (h : x.fh.seekSet (off + (x.nonceOff : Int) + 8) = .ok (v, { x.fh with pos := v })) :
-    seek x off 0 = .ok (v, x.withPos v) := by
-  simp only [seek, if_true, PyFile.seek, h]; rfl
+theorem seekTo_eq (x : XorFile) (target : Int) (v : Nat)
+    (hv : (v : Int) = max target 0 + (x.nonceOff : Int) + 8) : seekTo x target = .ok (v, x.withPos v) := by
+  have h : max target 0 + ((x.nonceOff : Int) + 8) = (v : Int) := by omega
+  simp only [seekTo, h, PyFile.seekSet_ok]; rfl
+
+theorem seek_set_eq (x : XorFile) (off : Int) (v : Nat) (h0 : 0 ≤ off)
+    (hv : (v : Int) = off + (x.nonceOff : Int) + 8) : seek x off 0 = .ok (v, x.withPos v) := by
+  have h1 : ¬ off < 0 := by omega
+  simp only [seek, if_neg h1]
+  exact seekTo_eq x off v (by omega)
+
+theorem seek_set_neg (x : XorFile) (off : Int) (h : off < 0) : seek x off 0 = .error .valueError := by
+  simp only [seek, if_pos h]
 
 theorem seek_cur_eq (x : XorFile) (off : Int) (v : Nat)
-    (h : x.fh.seekRel x.fh.pos off = .ok (v, { x.fh with pos := v })) :
-    seek x off 1 = .ok (v, x.withPos v) := by
-  have h1 : ¬ ((1 : Nat) = 0) := by decide
-  simp only [seek, h1, if_false, PyFile.seek, PyFile.seekCur, h]; rfl
+    (hv : (v : Int) = max (tell x + off) 0 + (x.nonceOff : Int) + 8) : seek x off 1 = .ok (v, x.withPos v) := by
+  simp only [seek]
+  exact seekTo_eq x _ v hv
 
 theorem seek_end_eq (x : XorFile) (off : Int) (v : Nat)
-    (h : x.fh.seekRel x.fh.data.length off = .ok (v, { x.fh with pos := v })) :
+    (hv : (v : Int) = max ((x.fh.data.length : Int) - ((x.nonceOff : Int) + 8) + off) 0 + (x.nonceOff : Int) + 8) :
     seek x off 2 = .ok (v, x.withPos v) := by
-  have h1 : ¬ ((2 : Nat) = 0) := by decide
-  simp only [seek, h1, if_false, PyFile.seek, PyFile.seekEnd, h]; rfl
+  simp only [seek, PyFile.seekEnd]
+  rw [seekRel_ok x.fh x.fh.data.length 0 x.fh.data.length (by omega)]
+  exact seekTo_eq { x with fh := { x.fh with pos := x.fh.data.length } } _ v hv
+
+theorem seek_bad_whence (x : XorFile) (off : Int) (wh : Nat) (hwh : 2 < wh) : seek x off wh = .error .valueError := by
+  obtain ⟨n, rfl⟩ : ∃ n, wh = n + 3 := ⟨wh - 3, by omega⟩
+  rfl
+
+/-- `seek` never raises anything but ValueError and changes nothing but the raw cursor -/
+theorem seek_frame (x : XorFile) (off : Int) (wh : Nat) :
+    seek x off wh = .error .valueError ∨ ∃ v, seek x off wh = .ok (v, x.withPos v) := by
+  match wh with
+  | 0 =>
+    by_cases h : off < 0
+    · exact Or.inl (seek_set_neg x off h)
+    · exact Or.inr ⟨_, seek_set_eq x off (off + (x.nonceOff : Int) + 8).toNat (by omega) (by omega)⟩
+  | 1 => exact Or.inr ⟨_, seek_cur_eq x off (max (tell x + off) 0 + (x.nonceOff : Int) + 8).toNat (by omega)⟩
+  | 2 => exact Or.inr ⟨_, seek_end_eq x off
+      (max ((x.fh.data.length : Int) - ((x.nonceOff : Int) + 8) + off) 0 + (x.nonceOff : Int) + 8).toNat (by omega)⟩
+  | n + 3 => exact Or.inl (seek_bad_whence x off _ (by omega))
 
 /-- one operation: same output (seek's return value shifted), abstraction preserved -/
 theorem step_refines {stub nonce size enc : Bytes} {x : XorFile} {pf : PyFile}
@@ -601,7 +618,7 @@ theorem step_refines {stub nonce size enc : Bytes} {x : XorFile} {pf : PyFile}
       obtain ⟨t, rfl⟩ : ∃ t : Nat, off = (t : Int) := ⟨off.toNat, by omega⟩
       refine ⟨.seek t, { pf with pos := t }, ?_, ?_, mkAbs t, by simpa using hrest⟩
       · simp only [plainStep, PyFile.seek, PyFile.seekSet_ok, Except.map]
-      · have h := seek_set_eq x (t : Int) (stub.length + 8 + t) (seekSet_ok' x.fh _ _ (by rw [hL.off]; omega))
+      · have h := seek_set_eq x (t : Int) (stub.length + 8 + t) (by omega) (by rw [hL.off]; omega)
         simp only [stepOp, h, Except.map, Out.shift]
         rw [Nat.add_comm t]
     | 1, hops =>
@@ -611,7 +628,7 @@ theorem step_refines {stub nonce size enc : Bytes} {x : XorFile} {pf : PyFile}
       rw [ht] at hrest h0
       refine ⟨.seek t, { pf with pos := t }, ?_, ?_, mkAbs t, by simpa using hrest⟩
       · simp only [plainStep, PyFile.seek, PyFile.seekCur, seekRel_ok pf pf.pos off t ht, Except.map]
-      · have h := seek_cur_eq x off (stub.length + 8 + t) (seekRel_ok x.fh x.fh.pos off _ (by rw [hpos]; omega))
+      · have h := seek_cur_eq x off (stub.length + 8 + t) (by simp only [tell, PyFile.tell]; rw [hpos, hL.off]; omega)
         simp only [stepOp, h, Except.map, Out.shift]
         rw [Nat.add_comm t]
     | 2, hops =>
@@ -623,7 +640,7 @@ theorem step_refines {stub nonce size enc : Bytes} {x : XorFile} {pf : PyFile}
         rw [hL.data]; simp only [List.length_append, hL.nlen, hL.slen]
       refine ⟨.seek t, { pf with pos := t }, ?_, ?_, mkAbs t, by simpa using hrest⟩
       · simp only [plainStep, PyFile.seek, PyFile.seekEnd, seekRel_ok pf pf.data.length off t (by rw [hplen]; exact ht), Except.map]
-      · have h := seek_end_eq x off (stub.length + 8 + t) (seekRel_ok x.fh x.fh.data.length off _ (by rw [hrawlen]; omega))
+      · have h := seek_end_eq x off (stub.length + 8 + t) (by rw [hrawlen, hL.off]; omega)
         simp only [stepOp, h, Except.map, Out.shift]
         rw [Nat.add_comm t]
     | (w + 3), hops => simp at hops
@@ -885,8 +902,7 @@ theorem mk'_congr (f g : PyFile) (c : Nat) (hd : f.data = g.data) (hk : f.kind =
   simp only [mk', PyFile.seekSet_ok]
 
 theorem seek0_ok (x : XorFile) : seek x 0 0 = .ok (x.nonceOff + 8, x.withPos (x.nonceOff + 8)) := by
-  apply seek_set_eq
-  exact seekSet_ok' _ _ _ (by omega)
+  exact seek_set_eq x 0 _ (by omega) (by omega)
 
 theorem tryCandidates_reject (mzOk : Nat → Bool) (cs : List Nat) :
     ∀ (g : PyFile), (∀ c ∈ cs, mzOk c = false) → tryCandidates g mzOk cs = .error .valueError := by
@@ -971,7 +987,7 @@ theorem first_passing_split (mzOk : Nat → Bool) (cs : List Nat) (h : ∃ c ∈
 
 theorem seek_set_layout {stub nonce size enc : Bytes} {x : XorFile} (hL : Layout stub nonce size enc x) (t : Nat) :
     seek x (t : Int) 0 = .ok (stub.length + 8 + t, x.withPos (stub.length + 8 + t)) :=
-  seek_set_eq x (t : Int) (stub.length + 8 + t) (seekSet_ok' x.fh _ _ (by rw [hL.off]; omega))
+  seek_set_eq x (t : Int) (stub.length + 8 + t) (by omega) (by rw [hL.off]; omega)
 
 /-- what `find_mz_offset` looks at when the image starts at logical offset 0 (`e` = `e_lfanew`) -/
 structure PeHeaderAt0 (plain : Bytes) (maxrange e : Nat) : Prop where
@@ -1115,7 +1131,7 @@ theorem read_total (x : XorFile) (n : Option Int) : ∃ out q, read x n = .ok (o
 
 theorem seek_set_nonneg (x : XorFile) (t : Int) (ht : 0 ≤ t) :
     seek x t 0 = .ok ((t + x.nonceOff + 8).toNat, x.withPos (t + x.nonceOff + 8).toNat) :=
-  seek_set_eq x t _ (seekSet_ok' _ _ _ (by omega))
+  seek_set_eq x t _ ht (by omega)
 
 /-- one iteration of `find_mz_offset` on a view never raises and only moves the cursor -/
 theorem mzStep_total (x : XorFile) (start maxrange offset : Nat) :
@@ -1250,5 +1266,588 @@ theorem mzVerdict_spec (f : PyFile) (c : Nat) (x0 : XorFile) (h0 : mk' f c = .ok
   dsimp only
   rw [hr]
   cases r <;> rfl
+
+
+/-! ### detection with the real needle scanner (`C15.iterFindNeedle`)
+
+`C01.needleLoop_frame` states the same frame property, but `Lemmas/C01.lean` imports this file. -/
+
+theorem needleLoop_frame (B : Nat) (needle : Bytes) (m : Nat) (f : PyFile) (saved : Bytes) :
+    (C15.needleLoop B needle m f saved).2.data = f.data ∧ (C15.needleLoop B needle m f saved).2.kind = f.kind := by
+  fun_induction C15.needleLoop B needle m f saved with
+  | case1 f saved pos hcut => exact ⟨rfl, rfl⟩
+  | case2 f saved pos hcut hblk => exact ⟨rfl, rfl⟩
+  | case3 f saved pos hcut hblk block d offs rest ih => exact ih
+
+theorem eofMarker_ne : eofMarker ≠ [] := by decide
+
+theorem markerScan_eq (B : Nat) (f : PyFile) (m : Nat) :
+    markerScan B f m = .ok (C15.needleLoop B eofMarker m { f with pos := 0 } []) := by
+  simp only [markerScan, C15.iterFindNeedle]
+  have : f.seekSet (0 : Int) = .ok (0, { f with pos := 0 }) := PyFile.seekSet_ok f 0
+  rw [this]
+
+theorem markerScan_ok (B : Nat) (f : PyFile) (m : Nat) :
+    ∃ hits f2, markerScan B f m = .ok (hits, f2) ∧ f2.data = f.data ∧ f2.kind = f.kind := by
+  rw [markerScan_eq]
+  have := needleLoop_frame B eofMarker m { f with pos := 0 } []
+  exact ⟨_, _, rfl, this.1, this.2⟩
+
+theorem markerScan_congr (B : Nat) (f g : PyFile) (m : Nat) (hd : f.data = g.data) (hk : f.kind = g.kind) :
+    markerScan B f m = markerScan B g m := by
+  obtain ⟨fd, fp, fk⟩ := f
+  obtain ⟨gd, gp, gk⟩ := g
+  simp only at hd hk
+  subst hd hk
+  rw [markerScan_eq, markerScan_eq]
+
+def realHits (B : Nat) (f : PyFile) (m : Nat) : List Nat :=
+  match markerScan B f m with
+  | .ok (hits, _) => hits.map Int.toNat
+  | .error _ => []
+
+def sizeOffsets (f : PyFile) (m : Nat) : List Nat :=
+  match iterNonceOffsets f none m with
+  | .ok (l, _) => l
+  | .error _ => []
+
+def realCandidates (B : Nat) (f : PyFile) (m : Nat) : List Nat := candidates (realHits B f m) (sizeOffsets f m)
+
+theorem realHits_of_scan {B : Nat} {f : PyFile} {m : Nat} {hits : List Int} {f2 : PyFile}
+    (h : markerScan B f m = .ok (hits, f2)) : realHits B f m = hits.map Int.toNat := by
+  simp only [realHits, h]
+
+theorem sizeOffsets_of_scan {f : PyFile} {m : Nat} {l : List Nat} {f1 : PyFile}
+    (h : iterNonceOffsets f none m = .ok (l, f1)) : sizeOffsets f m = l := by
+  simp only [sizeOffsets, h]
+
+theorem tryCandidatesFull_try (f g : PyFile) (hd : g.data = f.data) (hk : g.kind = f.kind) (cs : List Nat) :
+    tryCandidatesFull g cs = tryCandidates f (mzVerdict f) cs := by
+  rw [tryCandidatesFull_eq f (mzVerdict f) (mzVerdict_spec f) cs g hd hk]
+  exact tryCandidates_congr _ cs g f hd hk
+
+theorem fromFileReal_try (B : Nat) (f : PyFile) (m : Nat) :
+    fromFileReal B f m = tryCandidates f (mzVerdict f) (realCandidates B f m) := by
+  obtain ⟨l, f1, hl, hd1, hk1⟩ := iterNonceOffsets_ok f m
+  obtain ⟨hits, f2, hm, hd2, hk2⟩ := markerScan_ok B f1 m
+  have hm' : markerScan B f m = .ok (hits, f2) := by rw [← markerScan_congr B f1 f m hd1 hk1]; exact hm
+  simp only [fromFileReal, hl, hm, realCandidates, realHits_of_scan hm', sizeOffsets_of_scan hl]
+  exact tryCandidatesFull_try f f2 (by rw [hd2, hd1]) (by rw [hk2, hk1]) _
+
+theorem fromFileReal_full (B : Nat) (f : PyFile) (m : Nat) :
+    fromFileReal B f m = fromFileFull f m (realHits B f m) := by
+  rw [fromFileReal_try]
+  obtain ⟨l, f1, hl, hd1, hk1⟩ := iterNonceOffsets_ok f m
+  simp only [fromFileFull, hl, realCandidates, sizeOffsets_of_scan hl]
+  exact (tryCandidatesFull_try f f1 hd1 hk1 _).symm
+
+
+/-- the size relation of `iter_nonce_offsets` at offset `c` of a file of `data.length` bytes -/
+def SizeRel (data : Bytes) (rs : Int) (c : Nat) : Prop :=
+  c + 8 ≤ data.length ∧ u32 (C20.xor ((data.drop c).take 4) ((data.drop (c + 4)).take 4)) + (c : Int) + 8 = rs
+
+theorem read4_fst (f : PyFile) (i : Nat) : (({ f with pos := i } : PyFile).read 4).1 = (f.data.drop i).take 4 := by
+  rw [read4]
+
+theorem read4_snd (f : PyFile) (i : Nat) :
+    (({ f with pos := i } : PyFile).read 4).2 = { f with pos := i + ((f.data.drop i).take 4).length } := by
+  rw [read4]
+
+theorem nonceLoop_mem (rs : Int) (k : Nat) : ∀ (i : Nat) (f : PyFile) (l : List Nat) (f' : PyFile),
+    nonceLoop rs k i f = .ok (l, f') → ∀ c, c ∈ l ↔ i ≤ c ∧ c < i + k ∧ SizeRel f.data rs c := by
+  induction k with
+  | zero =>
+    intro i f l f' h c
+    simp only [nonceLoop] at h
+    injection h with h
+    rw [← (Prod.mk.inj h).1]
+    simp only [List.not_mem_nil, false_iff]
+    omega
+  | succ k ih =>
+    intro i f l f' h c
+    simp only [nonceLoop, PyFile.seekSet_ok] at h
+    by_cases hlen : i + 8 ≤ f.data.length
+    · obtain ⟨hl1, hf1⟩ := read4_len f i (by omega)
+      obtain ⟨hl2, hf2⟩ := read4_len f (i + 4) (by omega)
+      rw [hf1] at h
+      have hl2' : (({ f with pos := i + 4 } : PyFile).read 4).1.length = 4 := hl2
+      have hbr : ¬ ((({ f with pos := i } : PyFile).read 4).1.length ≠ 4 ∨ (({ f with pos := i + 4 } : PyFile).read 4).1.length ≠ 4) := by
+        rw [hl1, hl2']; simp
+      simp only [hbr, if_false] at h
+      obtain ⟨l0, f0, h0, _, _⟩ := nonceLoop_ok rs k (i + 1) (({ f with pos := i + 4 } : PyFile).read 4).2
+      rw [h0] at h
+      simp only at h
+      have ih0 := ih (i + 1) _ l0 f0 h0 c
+      rw [hf2] at ih0
+      simp only at ih0
+      rw [read4_fst f i, read4_fst f (i + 4)] at h
+      by_cases hrel : u32 (C20.xor ((f.data.drop i).take 4) ((f.data.drop (i + 4)).take 4)) + (i : Int) + 8 = rs
+      · rw [if_pos hrel] at h
+        injection h with h
+        rw [← (Prod.mk.inj h).1, List.mem_cons, ih0]
+        constructor
+        · rintro (rfl | ⟨h1, h2, h3⟩)
+          · exact ⟨Nat.le_refl _, by omega, hlen, hrel⟩
+          · exact ⟨by omega, by omega, h3⟩
+        · rintro ⟨h1, h2, h3⟩
+          by_cases hc : c = i
+          · exact Or.inl hc
+          · exact Or.inr ⟨by omega, by omega, h3⟩
+      · rw [if_neg hrel] at h
+        injection h with h
+        rw [← (Prod.mk.inj h).1, ih0]
+        constructor
+        · rintro ⟨h1, h2, h3⟩
+          exact ⟨by omega, by omega, h3⟩
+        · rintro ⟨h1, h2, h3⟩
+          by_cases hc : c = i
+          · subst hc; exact absurd h3.2 hrel
+          · exact ⟨by omega, by omega, h3⟩
+    · have hbr : ((({ f with pos := i } : PyFile).read 4).1.length ≠ 4 ∨
+          ((({ f with pos := i } : PyFile).read 4).2.read 4).1.length ≠ 4) := by
+        rw [read4_fst, read4_snd]
+        by_cases h4 : i + 4 ≤ f.data.length
+        · right
+          have : ((f.data.drop i).take 4).length = 4 := by simp only [List.length_take, List.length_drop]; omega
+          rw [this, read4_fst]
+          simp only [List.length_take, List.length_drop]; omega
+        · left
+          simp only [List.length_take, List.length_drop]; omega
+      rw [if_pos hbr] at h
+      injection h with h
+      rw [← (Prod.mk.inj h).1]
+      simp only [List.not_mem_nil, false_iff, SizeRel]
+      omega
+
+theorem sizeOffsets_iff (f : PyFile) (m c : Nat) :
+    c ∈ sizeOffsets f m ↔ c < m ∧ SizeRel f.data (f.data.length : Int) c := by
+  obtain ⟨l, f1, hl, _, _⟩ := iterNonceOffsets_ok f m
+  rw [sizeOffsets_of_scan hl]
+  simp only [iterNonceOffsets, PyFile.seekEnd] at hl
+  rw [seekRel_ok f f.data.length 0 f.data.length (by omega)] at hl
+  simp only [PyFile.tell] at hl
+  have := nonceLoop_mem _ m 0 _ l f1 hl c
+  rw [this]
+  simp only [Nat.zero_le, true_and, Nat.zero_add]
+
+/-! ### the real marker scan -/
+
+theorem startPos_zero (f : PyFile) : C15.startPos f (some 0) = 0 := rfl
+
+/-- what `needle_exact`'s list is for `start_offset = 0` -/
+theorem occ_filter_zero (f : PyFile) (needle : Bytes) :
+    (C15.occ f.data needle).filter (fun i => C15.startPos f (some 0) ≤ i) = C15.occ f.data needle := by
+  rw [List.filter_eq_self]
+  intro a _
+  simp [startPos_zero]
+
+theorem toNat_map_ofNat (l : List Nat) : (l.map Int.ofNat).map Int.toNat = l := by
+  induction l with
+  | nil => rfl
+  | cons a t ih => simp only [List.map_cons, ih]; rfl
+
+theorem ofNat_map_toNat (l : List Int) (h : ∀ x ∈ l, 0 ≤ x) : (l.map Int.toNat).map Int.ofNat = l := by
+  induction l with
+  | nil => rfl
+  | cons a t ih =>
+    simp only [List.map_cons]
+    rw [ih (fun x hx => h x (List.mem_cons_of_mem _ hx))]
+    have := h a List.mem_cons_self
+    congr 1
+    exact Int.toNat_of_nonneg this
+
+/-- the scanner's Python ints are the naturals of `realHits`: nothing is lost by `Int.toNat` -/
+theorem markerScan_nonneg (B : Nat) (hB : 1 ≤ B) (f : PyFile) (m : Nat) (hits : List Int) (f2 : PyFile)
+    (h : markerScan B f m = .ok (hits, f2)) : hits = (realHits B f m).map Int.ofNat := by
+  rw [realHits_of_scan h, ofNat_map_toNat]
+  exact C15.needle_nonneg B hB f eofMarker eofMarker_ne (some 0) m hits f2 h
+
+theorem realHits_sublist (B : Nat) (hB : 1 ≤ B) (f : PyFile) (m : Nat) :
+    List.Sublist (realHits B f m) (C15.occ f.data eofMarker) := by
+  obtain ⟨hits, f2, h, _, _⟩ := markerScan_ok B f m
+  have hs := C15.needle_limit_sublist B hB f eofMarker eofMarker_ne (some 0) m hits f2 h
+  rw [occ_filter_zero] at hs
+  have := hs.map Int.toNat
+  rw [toNat_map_ofNat] at this
+  rw [realHits_of_scan h]
+  exact this
+
+theorem realHits_nolimit (B : Nat) (hB : 1 ≤ B) (f : PyFile) : realHits B f 0 = C15.occ f.data eofMarker := by
+  have h := C15.needle_exact B hB f eofMarker eofMarker_ne (some 0) (by intro s hs; cases hs; omega)
+  rw [occ_filter_zero] at h
+  rw [realHits_of_scan h, toNat_map_ofNat]
+
+theorem realHits_complete (B : Nat) (hB : 1 ≤ B) (f : PyFile) (m : Nat) (i : Nat)
+    (hi : i ∈ C15.occ f.data eofMarker) (hlim : m = 0 ∨ i + 3 ≤ m) : i ∈ realHits B f m := by
+  rcases hlim with rfl | hlim
+  · rw [realHits_nolimit B hB]; exact hi
+  · obtain ⟨hits, f2, h, _, _⟩ := markerScan_ok B f m
+    have := C15.needle_limit_complete B hB f eofMarker eofMarker_ne (some 0) m hits f2 h i hi (by simp [startPos_zero]) hlim
+    rw [realHits_of_scan h]
+    exact List.mem_map.mpr ⟨_, this, rfl⟩
+
+/-- an occurrence of the marker ending at offset `c` -/
+theorem marker_occ_of_layout (pre rest : Bytes) : pre.length ∈ C15.occ (pre ++ eofMarker ++ rest) eofMarker := by
+  rw [C15.mem_occ]
+  constructor
+  · simp only [List.length_append]; omega
+  · rw [List.append_assoc, List.drop_left, List.take_left]
+
+theorem needleLoop_bound (B : Nat) (needle : Bytes) (m : Nat) (hm : m ≠ 0) (f : PyFile) (saved : Bytes) :
+    ∀ off ∈ (C15.needleLoop B needle m f saved).1, off ≤ 2 * (m : Int) := by
+  fun_induction C15.needleLoop B needle m f saved with
+  | case1 f saved pos hcut => intro off h; cases h
+  | case2 f saved pos hcut hblk => intro off h; cases h
+  | case3 f saved pos hcut hblk block d offs rest ih =>
+    intro off h
+    have h' : off ∈ offs ++ rest.1 := h
+    rw [List.mem_append] at h'
+    rcases h' with h' | h'
+    · have h2 : off ∈ C15.findLoop d needle m pos saved.length 0 := h'
+      rw [C15.findLoop_eq, List.mem_map] at h2
+      obtain ⟨p, hp, rfl⟩ := h2
+      simp only [List.mem_filter, decide_eq_true_eq] at hp
+      have : ¬ (m ≠ 0 ∧ pos > m) := hcut
+      omega
+    · exact ih off h'
+
+theorem realHits_bound (B : Nat) (f : PyFile) (m : Nat) (hm : m ≠ 0) : ∀ h ∈ realHits B f m, h ≤ 2 * m := by
+  intro h hh
+  have hs := markerScan_eq B f m
+  rw [realHits_of_scan hs, List.mem_map] at hh
+  obtain ⟨off, hoff, rfl⟩ := hh
+  have := needleLoop_bound B eofMarker m hm _ _ off hoff
+  omega
+
+/-- a scan that starts beyond the limit or at the end of the data reports nothing -/
+theorem needleLoop_stop (B : Nat) (needle : Bytes) (m : Nat) (f : PyFile) (saved : Bytes)
+    (h : (m ≠ 0 ∧ f.pos > m) ∨ f.data.length ≤ f.pos) : (C15.needleLoop B needle m f saved).1 = [] := by
+  rw [C15.needleLoop.eq_1]
+  by_cases hc : m ≠ 0 ∧ f.tell > m
+  · rw [if_pos hc]
+  · rw [if_neg hc]
+    have hlen : f.data.length ≤ f.pos := by
+      rcases h with h | h
+      · exact absurd h hc
+      · exact h
+    have : (f.read (B : Int)).1 = [] := by
+      rw [PyFile.read_nonneg, List.drop_eq_nil_of_le hlen]; exact List.take_nil
+    rw [dif_pos this]
+
+/-- With a buffer that holds the whole limited range (`maxrange + 3 ≤ B`, e.g. the default 8192 with `maxrange = 1024`)
+the limited scan is exact: the occurrences that start at or before `maxrange`. -/
+theorem realHits_large_buffer (B : Nat) (f : PyFile) (m : Nat) (hm : m ≠ 0) (hB : m + 3 ≤ B) :
+    realHits B f m = (C15.occ f.data eofMarker).filter (fun p => p ≤ m) := by
+  rw [realHits_of_scan (markerScan_eq B f m)]
+  rw [C15.needleLoop.eq_1]
+  have hc : ¬ (m ≠ 0 ∧ ({ f with pos := 0 } : PyFile).tell > m) := by
+    have : ({ f with pos := 0 } : PyFile).tell = 0 := rfl
+    omega
+  rw [if_neg hc]
+  have hblock : (({ f with pos := 0 } : PyFile).read (B : Int)).1 = f.data.take B := by
+    rw [PyFile.read_nonneg]; rfl
+  by_cases he : (({ f with pos := 0 } : PyFile).read (B : Int)).1 = []
+  · rw [dif_pos he]
+    rw [hblock] at he
+    have : f.data = [] := by
+      cases hd : f.data with
+      | nil => rfl
+      | cons a t =>
+        rw [hd] at he
+        have := congrArg List.length he
+        simp only [List.length_take, List.length_cons, List.length_nil] at this
+        omega
+    rw [this]; rfl
+  · rw [dif_neg he]
+    simp only [List.nil_append, List.length_nil]
+    have hstop : (C15.needleLoop B eofMarker m (({ f with pos := 0 } : PyFile).read (B : Int)).2
+        (C15.nextSaved eofMarker (({ f with pos := 0 } : PyFile).read (B : Int)).1)).1 = [] := by
+      apply needleLoop_stop B
+      simp only [PyFile.read_pos, PyFile.read_data, hblock, List.length_take]
+      by_cases hl : f.data.length ≤ B
+      · right; omega
+      · left; omega
+    rw [hstop, List.append_nil, C15.findLoop_eq, hblock, List.map_map]
+    have hid : ∀ l : List Nat, l.map (Int.toNat ∘ fun (p : Nat) => ((({ f with pos := 0 } : PyFile).tell : Nat) : Int) + (p : Int) - ((0 : Nat) : Int)) = l := by
+      intro l
+      induction l with
+      | nil => rfl
+      | cons a t ih =>
+        rw [List.map_cons, ih]
+        congr 1
+        simp only [Function.comp]
+        have : ({ f with pos := 0 } : PyFile).tell = 0 := rfl
+        rw [this]
+        omega
+    rw [hid]
+    apply C15.sorted_ext
+    · exact List.Pairwise.filter _ (C15.occ_sorted _ _)
+    · exact List.Pairwise.filter _ (C15.occ_sorted _ _)
+    · intro x
+      simp only [List.mem_filter, decide_eq_true_eq]
+      have hsplit : f.data = f.data.take B ++ f.data.drop B := (List.take_append_drop B f.data).symm
+      constructor
+      · rintro ⟨hx, _, hl⟩
+        have hxm : x ≤ m := by omega
+        refine ⟨?_, hxm⟩
+        have hb := (C15.mem_occ.1 hx).1
+        rw [hsplit, C15.mem_occ_append hb]; exact hx
+      · rintro ⟨hx, hxm⟩
+        have hb := (C15.mem_occ.1 hx).1
+        have h3 : eofMarker.length = 3 := rfl
+        have hb' : x + eofMarker.length ≤ (f.data.take B).length := by
+          simp only [List.length_take]; omega
+        refine ⟨?_, Nat.zero_le _, Or.inr hxm⟩
+        rw [hsplit, C15.mem_occ_append hb'] at hx; exact hx
+
+/-! ### `read` advances by what it returns, in every state; `seek` characterised for every target -/
+
+theorem read_tail_advances (x1 : XorFile) (m : Int) (hm : m = -1 ∨ 0 ≤ m) (nonce : Bytes) :
+    ∃ out, (let r := readLoop m x1.fh nonce 0
+      if m = -1 then (Except.ok (r.1, { x1 with fh := r.2 }) : Py (Bytes × XorFile))
+      else if (r.1.length : Int) > m then
+        match r.2.seekCur (m - (r.1.length : Int)) with
+        | .error e => .error e
+        | .ok (_, f3) => .ok (r.1.take m.toNat, { x1 with fh := f3 })
+      else .ok (r.1.take m.toNat, { x1 with fh := r.2 })) = .ok (out, x1.withPos (x1.fh.pos + out.length)) := by
+  have hfr := readLoop_frame m x1.fh nonce 0
+  dsimp only
+  by_cases h1 : m = -1
+  · rw [if_pos h1, hfr]
+    exact ⟨_, rfl⟩
+  · rw [if_neg h1]
+    by_cases h2 : ((readLoop m x1.fh nonce 0).1.length : Int) > m
+    · rw [if_pos h2, hfr]
+      simp only [PyFile.seekCur]
+      rw [seekRel_ok _ _ _ (x1.fh.pos + m.toNat) (by omega)]
+      refine ⟨(readLoop m x1.fh nonce 0).1.take m.toNat, ?_⟩
+      have : ((readLoop m x1.fh nonce 0).1.take m.toNat).length = m.toNat := by
+        rw [List.length_take]; omega
+      rw [this]; rfl
+    · rw [if_neg h2, hfr]
+      refine ⟨(readLoop m x1.fh nonce 0).1.take m.toNat, ?_⟩
+      have : (readLoop m x1.fh nonce 0).1.take m.toNat = (readLoop m x1.fh nonce 0).1 :=
+        List.take_of_length_le (by omega)
+      rw [this]; rfl
+
+theorem read_advances (x : XorFile) (n : Option Int) :
+    ∃ out, read x n = .ok (out, x.withPos (x.fh.pos + out.length)) := by
+  rw [read_unfold]
+  by_cases h0 : normN n = 0
+  · rw [if_pos h0]; exact ⟨[], rfl⟩
+  · rw [if_neg h0]
+    obtain ⟨nonce, hn⟩ := readNonce_restores x
+    rw [hn]
+    exact read_tail_advances x (normN n) (normN_cases n) nonce
+
+/-- the raw offset a `seek(off, whence)` of the view aimed at before fix 13416c7 (`seekOld`) -/
+def rawTarget (x : XorFile) (off : Int) (wh : Nat) : Int :=
+  match wh with
+  | 0 => off + (x.nonceOff : Int) + 8
+  | 1 => (x.fh.pos : Int) + off
+  | _ => (x.fh.data.length : Int) + off
+
+/-- what a Python file does with a relative seek whose target is negative -/
+def belowStart (x : XorFile) (wh : Nat) : Py (Nat × XorFile) :=
+  if wh = 0 then .error x.fh.negSeekExc
+  else match x.fh.kind with
+    | .bytesIO => .ok (0, x.withPos 0)
+    | .osFile => .error .osError
+
+theorem seekOld_exact (x : XorFile) (off : Int) (wh : Nat) (hwh : wh ≤ 2) :
+    seekOld x off wh =
+      if 0 ≤ rawTarget x off wh then .ok ((rawTarget x off wh).toNat, x.withPos (rawTarget x off wh).toNat)
+      else belowStart x wh := by
+  have hcases : wh = 0 ∨ wh = 1 ∨ wh = 2 := by omega
+  obtain ⟨⟨d, p, k⟩, no, inn, ns⟩ := x
+  rcases hcases with rfl | rfl | rfl
+  · simp only [seekOld, rawTarget, belowStart, if_true, PyFile.seek, PyFile.seekSet]
+    by_cases h : off + (no : Int) + 8 < 0
+    · rw [if_pos h, if_neg (by omega)]
+    · rw [if_neg h, if_pos (by omega)]; rfl
+  · simp only [seekOld, rawTarget, belowStart, PyFile.seek, PyFile.seekCur, PyFile.seekRel]
+    rw [if_neg (by omega : ¬ (1 = 0)), if_neg (by omega : ¬ (1 = 0))]
+    by_cases h : (p : Int) + off < 0
+    · rw [if_pos h, if_neg (by omega)]
+      cases k <;> rfl
+    · rw [if_neg h, if_pos (by omega)]; rfl
+  · simp only [seekOld, rawTarget, belowStart, PyFile.seek, PyFile.seekEnd, PyFile.seekRel]
+    rw [if_neg (by omega : ¬ (2 = 0)), if_neg (by omega : ¬ (2 = 0))]
+    by_cases h : (d.length : Int) + off < 0
+    · rw [if_pos h, if_neg (by omega)]
+      cases k <;> rfl
+    · rw [if_neg h, if_pos (by omega)]; rfl
+
+theorem seekOld_bad_whence (x : XorFile) (off : Int) (wh : Nat) (hwh : 2 < wh) : seekOld x off wh = .error .valueError := by
+  obtain ⟨n, rfl⟩ : ∃ n, wh = n + 3 := ⟨wh - 3, by omega⟩
+  rfl
+
+/-- the logical target of `seek(off, whence)` on a plain file -/
+def logicalTarget (pf : PyFile) (off : Int) (wh : Nat) : Int :=
+  match wh with
+  | 0 => off
+  | 1 => (pf.pos : Int) + off
+  | _ => (pf.data.length : Int) + off
+
+/-- what the plain file does with a seek whose target is negative -/
+def plainBelowStart (pf : PyFile) (wh : Nat) : Py (Out × PyFile) :=
+  if wh = 0 then .error pf.negSeekExc
+  else match pf.kind with
+    | .bytesIO => .ok (.seek 0, { pf with pos := 0 })
+    | .osFile => .error .osError
+
+theorem rawTarget_abs {stub nonce size enc : Bytes} {x : XorFile} {pf : PyFile}
+    (hA : Abs stub nonce size enc x pf) (off : Int) (wh : Nat) :
+    rawTarget x off wh = logicalTarget pf off wh + ((stub.length : Int) + 8) := by
+  obtain ⟨hL, hdata, hpos⟩ := hA
+  have hlen : x.fh.data.length = stub.length + 8 + pf.data.length := by
+    rw [hL.data, hdata, rollDecode_length]; simp only [List.length_append, hL.nlen, hL.slen]
+  match wh with
+  | 0 => simp only [rawTarget, logicalTarget]; rw [hL.off]; omega
+  | 1 => simp only [rawTarget, logicalTarget]; rw [hpos]; omega
+  | n + 2 => simp only [rawTarget, logicalTarget]; rw [hlen]; omega
+
+theorem plainStep_negative (pf : PyFile) (off : Int) (wh : Nat) (hwh : wh ≤ 2) (ht : logicalTarget pf off wh < 0) :
+    plainStep pf (.seek off wh) = plainBelowStart pf wh := by
+  have hcases : wh = 0 ∨ wh = 1 ∨ wh = 2 := by omega
+  obtain ⟨d, p, k⟩ := pf
+  rcases hcases with rfl | rfl | rfl
+  · simp only [logicalTarget] at ht
+    simp only [plainStep, plainBelowStart, PyFile.seek, PyFile.seekSet, if_pos ht, if_true]; rfl
+  · simp only [logicalTarget] at ht
+    simp only [plainStep, plainBelowStart, PyFile.seek, PyFile.seekCur, PyFile.seekRel, if_pos ht]
+    cases k <;> rfl
+  · simp only [logicalTarget] at ht
+    simp only [plainStep, plainBelowStart, PyFile.seek, PyFile.seekEnd, PyFile.seekRel, if_pos ht]
+    cases k <;> rfl
+
+instance (data : Bytes) (rs : Int) (c : Nat) : Decidable (SizeRel data rs c) := by
+  unfold SizeRel; infer_instance
+
+/-! ### (13) every history: the current `seek` clamps like `io.BytesIO` -/
+
+theorem plainStep_kind {pf : PyFile} {op : Op} {o : Out} {pf' : PyFile} (h : plainStep pf op = .ok (o, pf')) :
+    pf'.kind = pf.kind := by
+  cases op with
+  | tell => simp only [plainStep] at h; injection h with h; rw [← (Prod.mk.inj h).2]
+  | read n => simp only [plainStep] at h; injection h with h; rw [← (Prod.mk.inj h).2]; rfl
+  | seek off wh =>
+    simp only [plainStep] at h
+    cases hs : pf.seek off wh with
+    | error e => rw [hs] at h; cases h
+    | ok r =>
+      obtain ⟨v, g⟩ := r
+      rw [hs] at h
+      injection h with h
+      rw [← (Prod.mk.inj h).2, pyseek_frame _ _ _ _ _ hs]
+
+/-- one operation, any operation: the view and an `io.BytesIO` over the decoded bytes either raise the same exception
+(and nothing moves) or produce the same output (seek's return value shifted) and stay in the abstraction relation -/
+theorem step_refines_all {stub nonce size enc : Bytes} {x : XorFile} {pf : PyFile}
+    (hA : Abs stub nonce size enc x pf) (hk : pf.kind = .bytesIO) (op : Op) :
+    (∃ e, plainStep pf op = .error e ∧ stepOp x op = .error e) ∨
+    (∃ o pf', plainStep pf op = .ok (o, pf') ∧ pf'.kind = .bytesIO ∧
+      stepOp x op = .ok (o.shift (stub.length + 8), x.withPos (stub.length + 8 + pf'.pos)) ∧
+      Abs stub nonce size enc (x.withPos (stub.length + 8 + pf'.pos)) pf') := by
+  by_cases hnn : seeksNonneg enc.length pf.pos [op] = true
+  · obtain ⟨o, pf', h1, h2, h3, _⟩ := step_refines hA op [] hnn
+    exact Or.inr ⟨o, pf', h1, by rw [plainStep_kind h1, hk], h2, h3⟩
+  · obtain ⟨hL, hdata, hpos⟩ := hA
+    have hplen : pf.data.length = enc.length := by rw [hdata, rollDecode_length]
+    have hrawlen : x.fh.data.length = stub.length + 8 + enc.length := by
+      rw [hL.data]; simp only [List.length_append, hL.nlen, hL.slen]
+    have mk0 : Abs stub nonce size enc (x.withPos (stub.length + 8 + 0)) { pf with pos := 0 } :=
+      ⟨layout_withPos hL _, hdata, rfl⟩
+    cases op with
+    | tell => exact absurd rfl hnn
+    | read n => exact absurd rfl hnn
+    | seek off wh =>
+      match wh, hnn with
+      | 0, hnn =>
+        have hneg : off < 0 := by
+          apply Classical.byContradiction
+          intro h
+          exact hnn (by simp only [seeksNonneg, Bool.and_true, decide_eq_true_eq]; omega)
+        refine Or.inl ⟨.valueError, ?_, ?_⟩
+        · simp only [plainStep, PyFile.seek, PyFile.seekSet, if_pos hneg, PyFile.negSeekExc, hk]; rfl
+        · simp only [stepOp, seek_set_neg x off hneg]; rfl
+      | 1, hnn =>
+        have hneg : (pf.pos : Int) + off < 0 := by
+          apply Classical.byContradiction
+          intro h
+          exact hnn (by simp only [seeksNonneg, Bool.and_true, decide_eq_true_eq]; omega)
+        refine Or.inr ⟨.seek 0, { pf with pos := 0 }, ?_, hk, ?_, mk0⟩
+        · simp only [plainStep, PyFile.seek, PyFile.seekCur, PyFile.seekRel, if_pos hneg, hk]; rfl
+        · have h := seek_cur_eq x off (stub.length + 8 + 0)
+            (by simp only [tell, PyFile.tell]; rw [hpos, hL.off]; omega)
+          simp only [stepOp, h, Except.map, Out.shift]
+          rw [Nat.zero_add, Nat.add_zero]
+      | 2, hnn =>
+        have hneg : (enc.length : Int) + off < 0 := by
+          apply Classical.byContradiction
+          intro h
+          exact hnn (by simp only [seeksNonneg, Bool.and_true, decide_eq_true_eq]; omega)
+        have hneg' : (pf.data.length : Int) + off < 0 := by rw [hplen]; exact hneg
+        refine Or.inr ⟨.seek 0, { pf with pos := 0 }, ?_, hk, ?_, mk0⟩
+        · simp only [plainStep, PyFile.seek, PyFile.seekEnd, PyFile.seekRel, if_pos hneg', hk]; rfl
+        · have h := seek_end_eq x off (stub.length + 8 + 0) (by rw [hrawlen, hL.off]; omega)
+          simp only [stepOp, h, Except.map, Out.shift]
+          rw [Nat.zero_add, Nat.add_zero]
+      | (w + 3), _ =>
+        refine Or.inl ⟨.valueError, rfl, ?_⟩
+        simp only [stepOp, seek_bad_whence x off (w + 3) (by omega)]; rfl
+
+/-- the outputs of a history on the plain file, shifted into the view's convention -/
+def shiftOut (base : Nat) : Py Out → Py Out
+  | .ok o => .ok (o.shift base)
+  | .error e => .error e
+
+theorem trace_refines_all {stub nonce size enc : Bytes} (ops : List Op) :
+    ∀ {x : XorFile} {pf : PyFile}, Abs stub nonce size enc x pf → pf.kind = .bytesIO →
+      runTrace x ops = (plainTrace pf ops).map (shiftOut (stub.length + 8)) := by
+  induction ops with
+  | nil => intro x pf _ _; rfl
+  | cons op ops ih =>
+    intro x pf hA hk
+    rcases step_refines_all hA hk op with ⟨e, h1, h2⟩ | ⟨o, pf', h1, hk', h2, hA'⟩
+    · simp only [runTrace, plainTrace, h1, h2, List.map_cons, shiftOut, ih hA hk]
+    · simp only [runTrace, plainTrace, h1, h2, List.map_cons, shiftOut, ih hA' hk']
+
+theorem run_refines_all {stub nonce size enc : Bytes} (ops : List Op) :
+    ∀ {x : XorFile} {pf : PyFile}, Abs stub nonce size enc x pf → pf.kind = .bytesIO →
+      match plainRun pf ops with
+      | .ok (outs, pf') =>
+        run x ops = .ok (outs.map (Out.shift (stub.length + 8)), x.withPos (stub.length + 8 + pf'.pos)) ∧
+        Abs stub nonce size enc (x.withPos (stub.length + 8 + pf'.pos)) pf'
+      | .error e => run x ops = .error e := by
+  induction ops with
+  | nil =>
+    intro x pf hA _
+    simp only [plainRun, run, List.map_nil]
+    rw [← hA.pos]
+    exact ⟨rfl, hA⟩
+  | cons op ops ih =>
+    intro x pf hA hk
+    rcases step_refines_all hA hk op with ⟨e, h1, h2⟩ | ⟨o, pf', h1, hk', h2, hA'⟩
+    · simp only [plainRun, run, h1, h2]
+    · have := ih hA' hk'
+      simp only [plainRun, run, h1, h2]
+      cases hp : plainRun pf' ops with
+      | error e => rw [hp] at this; simp only [this]
+      | ok r =>
+        obtain ⟨outs, pf2⟩ := r
+        rw [hp] at this
+        simp only at this
+        simp only [this.1, List.map_cons, withPos_withPos]
+        rw [withPos_withPos] at this
+        exact ⟨trivial, this.2⟩
+
+
+/-- the logical position a `seek(off, whence)` of the view aims at (before clamping at 0) -/
+def viewTarget (x : XorFile) (off : Int) (wh : Nat) : Int :=
+  match wh with
+  | 0 => off
+  | 1 => tell x + off
+  | _ => (x.fh.data.length : Int) - ((x.nonceOff : Int) + 8) + off
 
 end C09
